@@ -15,6 +15,7 @@ import (
 	"crypto/sha256"
 	"encoding/json"
 	"fmt"
+	"os"
 	"reflect"
 	"strconv"
 	"strings"
@@ -40,7 +41,16 @@ func opts(v string) []serix.Option {
 	return nil
 }
 
+var debugFile *os.File
+
 func (x *runner) exec(op string) string {
+	if debugFile != nil {
+		if strings.HasPrefix(op, "def") {
+			debugFile.Truncate(0)
+			debugFile.Seek(0, 0)
+		}
+		debugFile.WriteString(op + "\n")
+	}
 	sp := strings.SplitN(op, " ", 2)
 	if len(sp) != 2 {
 		return "bad-op"
@@ -344,6 +354,9 @@ func countKinds(r *hx.Run, s *S, seen map[*S]bool) {
 
 func main() {
 	r := hx.Start()
+	if p := os.Getenv("C01B_DEBUG"); p != "" {
+		debugFile, _ = os.Create(p)
+	}
 	r.Rule = "random schemas (depth <= 4: every integer/float width, string, []byte, byte arrays, typed byte arrays, big.Int, time, " +
 		"slices, arrays, maps, structs with named/optional/omitempty/embedded/inlined fields and object codes, pointers, interfaces) x " +
 		"random values x validation on/off; non-trivial = expressible shape and value, encode succeeded and the value contains a nested " +
